@@ -101,6 +101,7 @@ class PathEnumerator:
         self.norm = nz
         self.no_inline = set(no_inline or ())
         self.split_ite = True                       # a conditional expression assigned / returned is read as the if-statement it abbreviates
+        self.loop_view = False                      # spell comprehensions over private helpers as loops (see normalize.Normalizer.body)
         self.unroll_literal_loops = True            # ``for x in (a, b, c)`` over a literal is read as the straight-line code it abbreviates
 
     def function_paths(self, fn: FunctionInfo, self_cls=None, args: Optional[Dict[str, Term]] = None) -> List[Path]:
@@ -122,7 +123,7 @@ class PathEnumerator:
             env[fn.node.args.vararg.arg] = ("varargs", fn.node.args.vararg.arg)
         frame = Frame(fn, fn.module, env, self_cls or fn.cls, 0)
         start = Path(TRUE, [], env)
-        return self.block(self.norm.body(fn, fn.node) if self.inline_private else fn.body, [start], frame)
+        return self.block(self.norm.body(fn, fn.node, loop_view=self.loop_view) if self.inline_private else fn.body, [start], frame)
 
     # ------------------------------------------------------------------------------------------
     def feasible(self, cond: Term) -> bool:
@@ -433,7 +434,7 @@ class PathEnumerator:
                 body_frame = Frame(fr.fn, fr.module, inner_env, fr.self_cls, fr.depth)
             else:
                 body_frame = Frame(info, info.module, inner_env, self_cls or info.cls, fr.depth)
-            outs = self.block(self.norm.body(info if info is not None else fr.fn, d), [q0], body_frame)
+            outs = self.block(self.norm.body(info if info is not None else fr.fn, d, loop_view=self.loop_view), [q0], body_frame)
         finally:
             self._inline_depth -= 1
             if info is not None:
